@@ -1,7 +1,7 @@
 \* exhaustive: every pair of archetypes of the quick alphabet, with and without a termination grace period
 CONSTANTS Pods = {"p1", "p2"}  Archetypes <- ArchQuick  TGPs <- BoolBoth  TGP = 3
   MaxNow = 4  MaxFaults = 0  MaxRestarts = 0  MaxDlChanges = 0  MaxLen = 1000  MaxSpont = 99
-  EarlierMode = "earlier"  GateTiers = TRUE  MinGrace = 1  DndMode = "honour"  ThresholdSlack = 0  DropMode = "keep"
+  EarlierMode = "earlier"  GateTiers = TRUE  MinGrace = 1  DndMode = "honour"  ThresholdSlack = 0  DropMode = "keep"  SplitMode = "waiting"
 SPECIFICATION Spec
 VIEW view
 INVARIANTS TypeOK Inv_C10_Guards
